@@ -36,7 +36,7 @@ RI(n) == <<n, 1>>
 RAdd(a, b) == <<a[1] * b[2] + b[1] * a[2], a[2] * b[2]>>
 RMul(a, b) == <<a[1] * b[1], a[2] * b[2]>>
 RInv(a) == IF a[1] < 0 THEN <<-a[2], -a[1]>> ELSE <<a[2], a[1]>>
-REq(a, b) == a[1] * b[2] = b[1] * a[2]
+REq(a, b) == IF a[2] = b[2] THEN a[1] = b[1] ELSE a[1] * b[2] = b[1] * a[2]      \* (equal denominators: no product, TLC integers are 32 bit)
 
 \* tensors of rationals
 TMap(T, f(_)) == [shape |-> T.shape, data |-> [p \in DOMAIN T.data |-> f(T.data[p])], err |-> FALSE]
